@@ -114,7 +114,13 @@ func init() {
 			if maxPacket < largest+150+ncommon*40 {
 				maxPacket = largest + 150 + ncommon*40
 			}
-			rep, err := m3.NewReporter(m3.Options{HostPorts: []string{col.s.addr()}, Service: "s", Env: "e", CommonTags: common,
+			hostPorts := []string{col.s.addr()}
+			if ci%5 == 2 {
+				// a first destination nobody listens on (its sends fail with ECONNREFUSED every other time): the second one
+				// still gets every batch, one datagram per emit
+				hostPorts = []string{deadUDPAddr(), col.s.addr()}
+			}
+			rep, err := m3.NewReporter(m3.Options{HostPorts: hostPorts, Service: "s", Env: "e", CommonTags: common,
 				Protocol: proto, MaxQueueSize: 1 + rng.Intn(64), MaxPacketSizeBytes: int32(maxPacket)})
 			if err != nil {
 				// the common tags alone exceed the packet: outside the property's proviso
